@@ -44,12 +44,14 @@ Record mst := { attempted : bool;            (* attempted_connect *)
                 did_timeout : bool;
                 exited : bool;               (* the fake transport's view: the process is gone *)
                 gone : bool;                 (* the data directory has been deleted *)
-                catt : astate }.
+                catt : astate;
+                nested : list N }.           (* the when_connected() calls the callbacks of the waiting Deferreds will make
+                                                when they are fired, in the order of `waiters` *)
 
 Definition m0 (c : cfg) : mst :=
   {| attempted := false; collected := []; npend := 0; conns := [];
      timer := if c_timeout c then TPending else TNone;
-     notified := None; waiters := [0]; did_timeout := false; exited := false; gone := false; catt := ANone |}.
+     notified := None; waiters := [0]; did_timeout := false; exited := false; gone := false; catt := ANone; nested := [] |}.
 
 Definition w_RESETCONF : bytes :=   (* RESETCONF __OwningControllerProcess *)
   str [82;69;83;69;84;67;79;78;70;32;95;95;79;119;110;105;110;103;67;111;110;116;114;111;108;108;101;114;80;114;111;99;101;115;115].
@@ -58,13 +60,18 @@ Definition w_SETEVENTS_SC : bytes :=   (* SETEVENTS STATUS_CLIENT *)
 
 Definition set_conns (s : mst) cs :=
   {| attempted := attempted s; collected := collected s; npend := npend s; conns := cs; timer := timer s;
-     notified := notified s; waiters := waiters s; did_timeout := did_timeout s; exited := exited s; gone := gone s; catt := catt s |}.
+     notified := notified s; waiters := waiters s; did_timeout := did_timeout s; exited := exited s; gone := gone s; catt := catt s; nested := nested s |}.
 Definition set_attempted (s : mst) b :=
   {| attempted := b; collected := collected s; npend := npend s; conns := conns s; timer := timer s;
-     notified := notified s; waiters := waiters s; did_timeout := did_timeout s; exited := exited s; gone := gone s; catt := catt s |}.
+     notified := notified s; waiters := waiters s; did_timeout := did_timeout s; exited := exited s; gone := gone s; catt := catt s; nested := nested s |}.
 Definition set_timer (s : mst) t :=
   {| attempted := attempted s; collected := collected s; npend := npend s; conns := conns s; timer := t;
-     notified := notified s; waiters := waiters s; did_timeout := did_timeout s; exited := exited s; gone := gone s; catt := catt s |}.
+     notified := notified s; waiters := waiters s; did_timeout := did_timeout s; exited := exited s; gone := gone s; catt := catt s; nested := nested s |}.
+
+(* everybody _maybe_notify_connected will tell: `for d in self._connected_listeners: d.callback(arg)` while
+   _connected_listeners is still the list, so a when_connected() made by a callback appends to the list
+   being iterated and is told at the end of the same loop *)
+Definition allw (s : mst) : list N := waiters s ++ nested s.
 
 (* _maybe_notify_connected *)
 Definition notify (s : mst) (r : res) : mst * list obs :=
@@ -72,14 +79,14 @@ Definition notify (s : mst) (r : res) : mst * list obs :=
   | Some _ => (s, [])
   | None =>
       ({| attempted := attempted s; collected := collected s; npend := npend s; conns := conns s; timer := timer s;
-          notified := Some r; waiters := []; did_timeout := did_timeout s; exited := exited s; gone := gone s; catt := catt s |},
-       map (fun w => EFired w r) (waiters s))
+          notified := Some r; waiters := []; did_timeout := did_timeout s; exited := exited s; gone := gone s; catt := catt s; nested := [] |},
+       map (fun w => EFired w r) (allw s))
   end.
 
 Definition set_catt (s : mst) a :=
   {| attempted := attempted s; collected := collected s; npend := npend s; conns := conns s; timer := timer s;
      notified := notified s; waiters := waiters s; did_timeout := did_timeout s; exited := exited s; gone := gone s;
-     catt := a |}.
+     catt := a; nested := nested s |}.
 
 (* self.tor_protocol: the connection _tor_connected ran on last *)
 Definition lastc (s : mst) : option N :=
@@ -105,8 +112,8 @@ Definition notify_ok (cf : cfg) (s : mst) : mst * list obs :=
       let '(a, pre, held) := if memN 0 (waiters s) then launch_resumes cf s else (catt s, [], false) in
       ({| attempted := attempted s; collected := collected s; npend := npend s; conns := conns s; timer := timer s;
           notified := Some ROk; waiters := []; did_timeout := did_timeout s; exited := exited s; gone := gone s;
-          catt := a |},
-       pre ++ map (fun w => EFired w ROk) (if held then drop0 (waiters s) else waiters s))
+          catt := a; nested := [] |},
+       pre ++ map (fun w => EFired w ROk) (if held then drop0 (allw s) else allw s))
   end.
 
 Definition getc (s : mst) (c : N) : option conn := nth_error (conns s) (N.to_nat c).
@@ -125,11 +132,11 @@ Definition step (cf : cfg) (s : mst) (o : op) : mst * list obs :=
         if isinfix LISTENER buf then
           ({| attempted := true; collected := []; npend := S (npend s); conns := conns s; timer := timer s;
               notified := notified s; waiters := waiters s; did_timeout := did_timeout s; exited := exited s;
-              gone := gone s; catt := catt s |}, [EConnecting])
+              gone := gone s; catt := catt s; nested := nested s |}, [EConnecting])
         else
           ({| attempted := false; collected := buf; npend := npend s; conns := conns s; timer := timer s;
               notified := notified s; waiters := waiters s; did_timeout := did_timeout s; exited := exited s;
-              gone := gone s; catt := catt s |}, [])
+              gone := gone s; catt := catt s; nested := nested s |}, [])
   | OErr _ =>
       if c_killerr cf then (s, [ELoseConn; ERaised 1]) else (s, [])
   | OConnOk =>
@@ -139,7 +146,7 @@ Definition step (cf : cfg) (s : mst) (o : op) : mst * list obs :=
           ({| attempted := attempted s; collected := collected s; npend := n;
               conns := conns s ++ [{| k_stage := SBoot; k_lreg := false; k_evon := false |}];
               timer := timer s; notified := notified s; waiters := waiters s; did_timeout := did_timeout s;
-              exited := exited s; gone := gone s; catt := catt s |}, [])
+              exited := exited s; gone := gone s; catt := catt s; nested := nested s |}, [])
       end
   | OConnFail =>
       match npend s with
@@ -147,7 +154,7 @@ Definition step (cf : cfg) (s : mst) (o : op) : mst * list obs :=
       | S n =>
           ({| attempted := false; collected := collected s; npend := n; conns := conns s; timer := timer s;
               notified := notified s; waiters := waiters s; did_timeout := did_timeout s; exited := exited s;
-              gone := gone s; catt := catt s |}, [])
+              gone := gone s; catt := catt s; nested := nested s |}, [])
       end
   | OBoot c ok =>
       match getc s c with
@@ -228,7 +235,7 @@ Definition step (cf : cfg) (s : mst) (o : op) : mst * list obs :=
       | TPending =>
           let s1 := {| attempted := attempted s; collected := collected s; npend := npend s; conns := conns s;
                        timer := TFired; notified := notified s; waiters := waiters s; did_timeout := true;
-                       exited := exited s; gone := gone s; catt := catt s |} in
+                       exited := exited s; gone := gone s; catt := catt s; nested := nested s |} in
           let e0 := if exited s then [ELoseConn] else [ESignal w_TERM] in
           let '(s2, e2) := notify s1 (RFail 1) in (s2, e0 ++ e2)
       | _ => (s, [])
@@ -236,7 +243,7 @@ Definition step (cf : cfg) (s : mst) (o : op) : mst * list obs :=
   | OExit x =>
       let s1 := {| attempted := attempted s; collected := collected s; npend := npend s; conns := conns s;
                    timer := timer s; notified := notified s; waiters := waiters s; did_timeout := did_timeout s;
-                   exited := true; gone := gone s || negb (c_userdir cf); catt := catt s |} in
+                   exited := true; gone := gone s || negb (c_userdir cf); catt := catt s; nested := nested s |} in
       let k := match x with XCode _ => 2 | XSignal _ => if did_timeout s then 4 else 3 end in
       notify s1 (RFail k)
   | OWhen w =>
@@ -245,12 +252,20 @@ Definition step (cf : cfg) (s : mst) (o : op) : mst * list obs :=
       | None =>
           ({| attempted := attempted s; collected := collected s; npend := npend s; conns := conns s;
               timer := timer s; notified := None; waiters := waiters s ++ [w]; did_timeout := did_timeout s;
-              exited := exited s; gone := gone s; catt := catt s |}, [])
+              exited := exited s; gone := gone s; catt := catt s; nested := nested s |}, [])
+      end
+  | OWhenR w w' =>
+      match notified s with
+      | Some r => (s, [EFired w r; EFired w' r])      (* succeed(result): w is told at once, and so is its request *)
+      | None =>
+          ({| attempted := attempted s; collected := collected s; npend := npend s; conns := conns s;
+              timer := timer s; notified := None; waiters := waiters s ++ [w]; did_timeout := did_timeout s;
+              exited := exited s; gone := gone s; catt := catt s; nested := nested s ++ [w'] |}, [])
       end
   | OShutdown =>
       ({| attempted := attempted s; collected := collected s; npend := npend s; conns := conns s;
           timer := timer s; notified := notified s; waiters := waiters s; did_timeout := did_timeout s;
-          exited := exited s; gone := gone s || negb (c_userdir cf); catt := catt s |}, [])
+          exited := exited s; gone := gone s || negb (c_userdir cf); catt := catt s; nested := nested s |}, [])
   end.
 
 (* the harness looks at the directory after every operation *)
